@@ -28,7 +28,12 @@ RULE = ('expression correspondence: seeded random expressions (depth <= 5) over 
         'calls) x 6 argument vectors x the three targets vs the Python evaluator; undefined cases (division by zero, '
         'INT_MIN/-1, shift count out of range, step budget) are filtered; distinct non-trivial = accepted '
         '(function, target, arguments) triples with control flow and a non-zero result')
-EXPLANATION = ('PARTIAL. Theorems (unbounded in values, int width 16/32/64) cover only expressions over int/byte/bool: '
+EXPLANATION = ('PARTIAL. Statement level (added): c37_stmt_exact / c37_body_exact / c37_switch_dispatch prove, by rule induction '
+               'over a relational big-step semantics (Spec/C3StmtSpec.v: assignment with implicit conversion, compound, if/else, '
+               'while, for, switch, return), that the code gen_stmt is modelled to emit (Model/C3Stmt.v) returns the prescribed '
+               'value; the CFG is represented unfolded along forward edges (Model/StmtCode.v), executed with IRSem arithmetic but '
+               'NOT with IRSem.run_function on numbered blocks/byte memory; model CFG vs decompiled c3_to_ir output compared '
+               'structurally every run. Expression level: theorems (unbounded in values, int width 16/32/64) cover expressions over int/byte/bool: '
                'typing, inserted conversions, arithmetic, comparisons, short-circuit logic as condition and as value. '
                'NOT proved: statements, locals/stack slots, calls, switch dispatch, pointers, structs, arrays, sized '
                'integer types, floats, strings, constant evaluation (const declarations, case labels); these are differential-execution validated only '
@@ -52,6 +57,8 @@ TY_COQ = {'int': 'CInt', 'byte': 'CByte', 'bool': 'CBool'}
 
 def _impl():
     vlib.ensure_repo_on_path()
+    if os.path.dirname(os.path.abspath(__file__)) not in sys.path:
+        sys.path.insert(0, os.path.dirname(os.path.abspath(__file__)))
     from ppci.lang.c3 import c3_to_ir
     import irsem_py
     import logging
@@ -588,19 +595,165 @@ def diff_module(ctx, src, body, final, feats, st, nvec):
                 break
 
 
+# ------------------------------------------------------------------ statements: model CFG vs decompiled c3_to_ir output (tie H)
+TVARS = {'int': [0, 1], 'byte': [2, 3]}
+
+
+def tgen_block(rng, depth, n=None):
+    return [tgen_stmt(rng, depth) for _ in range(n or rng.choice([1, 1, 2]))]
+
+
+def tgen_assign(rng):
+    r = rng.random()
+    if r < 0.1:
+        return ('assign', 4, 'bool', ('bool', rng.random() < 0.5))
+    if r < 0.4:
+        return ('assign', rng.choice(TVARS['byte']), 'byte', gen_num(rng, 2, rng.choice(['byte', 'int']), param_vars))
+    return ('assign', rng.choice(TVARS['int']), 'int', gen_num(rng, 2, rng.choice(['int', 'byte', None]), param_vars))
+
+
+def has_bool_lit(c):
+    return c[0] == 'bool' or any(has_bool_lit(x) for x in c[1:] if isinstance(x, tuple))
+
+
+def loop_cond(rng, depth):
+    """loop conditions without true/false literals: a constant-false operand makes the body unreachable, and
+    the decompiler (which only sees reachable back edges) then has no loop where the model has one"""
+    while True:
+        c = gen_bool(rng, depth, param_vars)
+        if not has_bool_lit(c):
+            return c
+
+
+def tgen_stmt(rng, depth):
+    r = rng.random()
+    if depth > 0 and r < 0.2:
+        return ('if', loop_cond(rng, rng.choice([0, 1, 2])), tgen_block(rng, depth - 1),
+                tgen_block(rng, depth - 1) if rng.random() < 0.6 else [])
+    if depth > 0 and r < 0.32:
+        return ('while', loop_cond(rng, rng.choice([0, 1])), tgen_block(rng, depth - 1))
+    if depth > 0 and r < 0.44:
+        return ('for', tgen_assign(rng), loop_cond(rng, rng.choice([0, 1])), tgen_assign(rng),
+                tgen_block(rng, depth - 1))
+    if depth > 0 and r < 0.56:
+        labels = rng.sample([0, 1, 2, 3, 7, 100, 255], rng.choice([1, 2, 3]))
+        return ('switch', gen_num(rng, 1, 'int', param_vars), [(z, tgen_block(rng, depth - 1, 1)) for z in labels],
+                tgen_block(rng, depth - 1, 1))
+    if r < 0.64:
+        return ('if', loop_cond(rng, 1), [('ret', gen_num(rng, 1, None, param_vars))], [])
+    return tgen_assign(rng)
+
+
+def t_src(s, ind):
+    p = ' ' * ind
+    k = s[0]
+    if k == 'assign':
+        return [p + 'p%d = %s;' % (s[1], e_src(s[3]))]
+    if k == 'ret':
+        return [p + 'return %s;' % e_src(s[1])]
+    if k == 'if':
+        out = [p + 'if (%s) {' % e_src(s[1])] + tb_src(s[2], ind + 2) + [p + '}']
+        if s[3]:
+            out[-1] = p + '} else {'
+            out += tb_src(s[3], ind + 2) + [p + '}']
+        return out
+    if k == 'while':
+        return [p + 'while (%s) {' % e_src(s[1])] + tb_src(s[2], ind + 2) + [p + '}']
+    if k == 'for':
+        return ([p + 'for (%s %s; %s) {' % (t_src(s[1], 0)[0], e_src(s[2]), t_src(s[3], 0)[0].rstrip(';'))]
+                + tb_src(s[4], ind + 2) + [p + '}'])
+    if k == 'switch':
+        out = [p + 'switch (%s) {' % e_src(s[1])]
+        for z, body in s[2]:
+            out += [p + '  case %d: {' % z] + tb_src(body, ind + 4) + [p + '  }']
+        return out + [p + '  default: {'] + tb_src(s[3], ind + 4) + [p + '  }', p + '}']
+    raise AssertionError(k)
+
+
+def tb_src(b, ind):
+    return [l for s in b for l in t_src(s, ind)]
+
+
+def t_coq(s):
+    k = s[0]
+    if k == 'assign':
+        return '(SAssign %d %s %s)' % (s[1], TY_COQ[s[2]], e_coq(s[3]))
+    if k == 'ret':
+        return '(SRet %s)' % e_coq(s[1])
+    if k == 'if':
+        return '(SIf %s %s %s)' % (e_coq(s[1]), tb_coq(s[2]), tb_coq(s[3]))
+    if k == 'while':
+        return '(SWhile %s %s)' % (e_coq(s[1]), tb_coq(s[2]))
+    if k == 'for':
+        return '(SFor %s %s %s %s)' % (t_coq(s[1]), e_coq(s[2]), t_coq(s[3]), tb_coq(s[4]))
+    if k == 'switch':
+        return '(SSwitch %s [%s] %s)' % (e_coq(s[1]), '; '.join('(%d, %s)' % (z, tb_coq(b)) for z, b in s[2]), tb_coq(s[3]))
+    raise AssertionError(k)
+
+
+def tb_coq(b):
+    if not b:
+        return 'SSkip'
+    if len(b) == 1:
+        return t_coq(b[0])
+    return '(SSeq %s %s)' % (t_coq(b[0]), tb_coq(b[1:]))
+
+
+def stmt_cases(ctx, n):
+    """(Coq term, decompiled real CFG) pairs"""
+    import stmt_decomp
+    cases, meta = [], []
+    var_index = {'p%d' % i: i for i in range(len(PARAM_TYPES))}
+    tries = 0
+    while len(cases) < n and tries < 4 * n:
+        tries += 1
+        body = tgen_block(ctx.rng, 2, ctx.rng.choice([1, 2, 3])) + [('ret', gen_num(ctx.rng, 1, None, param_vars))]
+        src = 'module m;\nfunction int f(%s) {\n%s\n}\n' % (PARAMS_SRC, '\n'.join(tb_src(body, 2)))
+        march, w, ptr = ARCHS[0] if tries % 2 else ARCHS[2]
+        m, err = compile_c3(src, march)
+        if err == 'diag':
+            val = Diag
+        elif err:
+            val = Internal
+        else:
+            f = [x for x in m.functions if x.name == fn_name(m, 'f')][0]
+            try:
+                val = stmt_decomp.decompile(f, var_index, True, lambda d: 2 * d)
+            except stmt_decomp.Unexpected as ex:
+                if str(ex) == 'too large':
+                    continue
+                val = 'decompile: %s' % ex
+        cases.append(('compile_val %d CInt %s' % (w, tb_coq(body)), val))
+        meta.append((march, src))
+    return cases, meta
+
+
 # ------------------------------------------------------------------ constant expressions (context.eval_const; differential only)
-def gen_const(rng, depth):
+def gen_const(rng, depth, ext=False):
+    """ext: also << >> & | ^ and unary minus (only when the front-end's eval_const has them)"""
     if depth == 0 or rng.random() < 0.3:
         k = ('lit', rng.choice([0, 1, 2, 3, 5, 7, 10, 13, 100, 255, 1000]))
+        if ext and rng.random() < 0.3:
+            return ('neg', k)
         return k if rng.random() < 0.7 else ('bin', '-', ('lit', 0), k)
-    return ('bin', rng.choice(['+', '-', '*', '/', '%', '/', '%']), gen_const(rng, depth - 1), gen_const(rng, depth - 1))
+    ops = ['+', '-', '*', '/', '%', '/', '%'] + (['<<', '>>', '&', '|', '^'] if ext else [])
+    op = rng.choice(ops)
+    b = gen_const(rng, depth - 1, ext)
+    if op in ('<<', '>>') and rng.random() < 0.8:
+        b = ('lit', rng.choice([0, 1, 2, 3, 7]))
+    return ('bin', op, gen_const(rng, depth - 1, ext), b)
 
 
 def cev(w, e):
-    """value of an int constant expression; Undef on division by zero or when an intermediate
-    value leaves the int range (the compile-time evaluator works on unbounded integers)"""
+    """value of an int constant expression; Undef on division by zero, a shift count outside 0..w-1, or when an
+    intermediate value leaves the int range (the compile-time evaluator works on unbounded integers)"""
     if e[0] == 'lit':
         return e[1]
+    if e[0] == 'neg':
+        r = -cev(w, e[1])
+        if norm(w, True, r) != r:
+            raise Undef('overflow')
+        return r
     a, b = cev(w, e[2]), cev(w, e[3])
     r = arith(w, True, e[1], a, b)
     if r != arith(256, True, e[1], a, b):
@@ -613,6 +766,7 @@ CONST_WITNESSES = [
     {'id': 'const-floormod', 'expr': ('bin', '%', ('bin', '-', ('lit', 0), ('lit', 7)), ('lit', 2))},
     {'id': 'const-shift', 'expr': ('bin', '<<', ('lit', 1), ('lit', 3))},
     {'id': 'const-bitand', 'expr': ('bin', '&', ('lit', 6), ('lit', 3))},
+    {'id': 'const-unary-minus', 'expr': ('neg', ('lit', 7)), 'diag_ok': True},
 ]
 
 
@@ -628,42 +782,58 @@ def const_outcome(e, march, ptr, as_case=False):
     return src, m
 
 
+def const_one(ctx, st, wid, e, diag_ok=False):
+    ok_all = True
+    for march, w, ptr in (ARCHS[0], ARCHS[2]):
+        try:
+            exp = cev(w, e)
+        except Undef:
+            st['rejected'] += 1
+            continue
+        st['checked'] += 1
+        src, m = const_outcome(e, march, ptr)
+        if isinstance(m, str):
+            act = m
+        else:
+            act = ir_outcome(m, fn_name(m, 'f'), [0], ptr)
+            act = act.v if isinstance(act, OkV) else act
+        src2, m2 = const_outcome(e, march, ptr, as_case=True)
+        if isinstance(m2, str):
+            act2 = m2
+        else:
+            act2 = ir_outcome(m2, fn_name(m2, 'f'), [exp], ptr)
+            act2 = act2.v if isinstance(act2, OkV) else act2
+        ok = act == exp and act2 == 1
+        if diag_ok and act == 'diag' and act2 == 'diag':
+            if wid:
+                st['witnesses'][wid + '@' + march] = 'rejected by the front-end (diagnostic)'
+            ok_all = False
+            continue
+        if wid:
+            st['witnesses'][wid + '@' + march] = 'passes' if ok else 'fails'
+        if not ok:
+            ok_all = False
+            st['mismatch'] += 1
+            rec = {'fn': 'c3_to_ir', 'key': 'const-' + (wid or e[1]), 'src': src if act != exp else src2,
+                   'march': march, 'args': [0] if act != exp else [exp], 'expected': exp if act != exp else 1,
+                   'actual': repr(act if act != exp else act2),
+                   'how_to_replay': 'python tools/props/c37.py replay <this file>'}
+            if wid:
+                rec['witness'] = wid
+            ctx.violation(rec)
+    return ok_all
+
+
 def const_stage(ctx, n):
     st = {'checked': 0, 'rejected': 0, 'mismatch': 0, 'witnesses': {}}
-    items = [(w_['id'], w_['expr']) for w_ in CONST_WITNESSES] + \
-            [(None, gen_const(ctx.rng, ctx.rng.choice([1, 2, 3]))) for _ in range(n)]
-    for wid, e in items:
-        for march, w, ptr in (ARCHS[0], ARCHS[2]):
-            try:
-                exp = cev(w, e)
-            except Undef:
-                st['rejected'] += 1
-                continue
-            st['checked'] += 1
-            src, m = const_outcome(e, march, ptr)
-            if isinstance(m, str):
-                act = m
-            else:
-                act = ir_outcome(m, fn_name(m, 'f'), [0], ptr)
-                act = act.v if isinstance(act, OkV) else act
-            src2, m2 = const_outcome(e, march, ptr, as_case=True)
-            if isinstance(m2, str):
-                act2 = m2
-            else:
-                act2 = ir_outcome(m2, fn_name(m2, 'f'), [exp], ptr)
-                act2 = act2.v if isinstance(act2, OkV) else act2
-            ok = act == exp and act2 == 1
-            if wid:
-                st['witnesses'][wid + '@' + march] = 'passes' if ok else 'fails'
-            if not ok:
-                st['mismatch'] += 1
-                rec = {'fn': 'c3_to_ir', 'key': 'const-' + (wid or e[1]), 'src': src if act != exp else src2,
-                       'march': march, 'args': [0] if act != exp else [exp], 'expected': exp if act != exp else 1,
-                       'actual': repr(act if act != exp else act2),
-                       'how_to_replay': 'python tools/props/c37.py replay <this file>'}
-                if wid:
-                    rec['witness'] = wid
-                ctx.violation(rec)
+    res = {}
+    for w_ in CONST_WITNESSES:
+        res[w_['id']] = const_one(ctx, st, w_['id'], w_['expr'], w_.get('diag_ok', False))
+    # the extended operator set is exercised once the front-end evaluates it at all
+    ext = res['const-shift'] and res['const-bitand'] and res['const-unary-minus']
+    st['extended_operators'] = bool(ext)
+    for _ in range(n):
+        const_one(ctx, st, None, gen_const(ctx.rng, ctx.rng.choice([1, 2, 3]), ext))
     return st
 
 
@@ -691,13 +861,13 @@ def regen(ctx):
 def run(ctx):
     thorough = not ctx.quick()
     regen(ctx)
-    ok, _ = ctx.build(['Proofs/C37_c3.vo', 'Model/C3Lower.vo'])
+    ok, _ = ctx.build(['Proofs/C37_c3.vo', 'Proofs/C37_stmt.vo', 'Model/C3Lower.vo', 'Model/C3Stmt.vo'])
     if ok:
         ctx.check_props('Props/C37.v')
     model_ok = ok or ctx.build(['Model/C3Lower.vo'])[0]
 
     # ---- model vs implementation (and the evaluator twin) on expressions
-    cases, meta = expr_cases(ctx, 420 if thorough else 150, 150 if thorough else 50, 5 if thorough else 3)
+    cases, meta = expr_cases(ctx, 420 if thorough else 120, 150 if thorough else 40, 5 if thorough else 3)
     twin_bad = []
     for i, mt in enumerate(meta):
         if mt['twin'] is None or mt['kind'] == 'ill':
@@ -723,6 +893,22 @@ def run(ctx):
             ctx.failed_stages.append(('correspondence', 'Model.C3Lower disagrees with c3_to_ir+irsem_py on %d cases, first: '
                                       '%s on %s env %r' % (len(bad), meta[bad[0]]['src'], meta[bad[0]]['march'],
                                                            meta[bad[0]]['env'])))
+
+    # ---- statements: model CFG (Model/C3Stmt.v) vs decompiled c3_to_ir output
+    if model_ok:
+        scases, smeta = stmt_cases(ctx, 120 if thorough else 45)
+        sbad = ctx.run_cases('c3stmt', ['Spec.IRSyntax', 'Spec.IRSem', 'Spec.C3Spec', 'Spec.C3StmtSpec', 'Model.C3Lower',
+                                        'Model.StmtCode', 'Model.C3Stmt'], scases)
+        ctx.cov['stages']['stmt_cfg_cases'] = {'cases': len(scases), 'disagree': len(sbad or []),
+                                               'diag': sum(1 for _, v in scases if v is Diag)}
+        ctx.cov['distinct_nontrivial'] += len(scases)
+        if smeta:
+            ctx.note_sample({'stmt_cfg_source': smeta[0][1], 'march': smeta[0][0]})
+        if sbad:
+            for i in sbad[:3]:
+                ctx.log('statement model / c3_to_ir CFG disagree on (%s):\n' % smeta[i][0] + smeta[i][1] + repr(scases[i][1])[:300])
+            ctx.failed_stages.append(('correspondence', 'Model.C3Stmt CFG differs from c3_to_ir on %d functions, first (%s):\n%s'
+                                      % (len(sbad), smeta[sbad[0]][0], smeta[sbad[0]][1])))
 
     # ---- constant expressions (const declarations, case labels)
     ctx.cov['stages']['constants'] = const_stage(ctx, 120 if thorough else 40)
@@ -769,8 +955,15 @@ MANIFEST = {
             'true target exactly when its value is true (c37_cond_exact); the operand skipped by and/or is neither used nor '
             'executed (c37_short_circuit_and/or); implicit byte->int widening is inserted and keeps the value '
             '(c37_coercion_exact); int->byte narrowing is also inserted implicitly by do_coerce and truncates modulo 256 '
-            '(c37_coercion_narrowing_is_implicit); bool converts to nothing (c37_coercion_bool_rejected). Statements '
-            '(locals, assignment, if/while/for/switch, early return, calls) have NO theorem: they are differential-execution '
+            '(c37_coercion_narrowing_is_implicit); bool converts to nothing (c37_coercion_bool_rejected). STATEMENTS over int/byte/bool '
+            'variables (assignment with the implicit conversion, compound, if/else, while, for, switch, return): whenever the '
+            'relational big-step semantics C3StmtSpec ends in return v, the code the gen_stmt model emits returns v '
+            '(c37_stmt_exact, c37_body_exact), and the CJump chain of a switch reaches exactly the code of the first matching '
+            'case label, else default (c37_switch_dispatch). LIMIT: the emitted CFG is modelled unfolded along its forward edges '
+            '(join blocks duplicated, loop heads/back edges explicit, the switch value as a register, variables as slots) and '
+            'executed with IRSem arithmetic, not with IRSem.run_function over numbered blocks and byte memory; the representation '
+            'is tied to the real output by decompiling c3_to_ir\'s CFG into the same tree form and comparing it with the model on '
+            'generated functions every run. Calls, block numbering, memory layout are differential-execution '
             'validated only (generated C3 modules -> c3_to_ir for arm, x86_64 and msp430 -> reference IR interpreter vs an '
             'independent evaluator of the C3 semantics, 150 modules x 3 targets x 6 argument vectors per quick run). '
             'Compile-time constant expressions (const declarations, case labels; + - * / % on int literals) are likewise '
